@@ -229,19 +229,16 @@ def register(props):
                       "bound): Unserialize, Validate, Serialize and data-mode ValidateCompatibility return Ok or Err - never Panic, "
                       "never OutOfFuel (so they terminate), under no_inline_cycle and defaults_total K; both hypotheses are boolean, "
                       "evaluated by the model on every case, and refuted where they fail (C04_inline_cycle_refuted, "
-<<<<<<< HEAD
                       "C04_default_cycle_refuted: no fuel suffices). The same theorems hold under wf_use, i.e. wf_schema without the conjunct "
                       "'every object of a scope is stored under its own id' which no operation reads (C04_wf_schema_iff_use, "
-                      "C04_total_use, C04_never_panics_use) - the form C10 needs for schemas received as descriptions.",
-=======
-                      "C04_default_cycle_refuted: no fuel suffices). Struct-mapped objects (model Schema/XOps.v, conservative over "
+                      "C04_total_use, C04_never_panics_use) - the form C10 needs for schemas received as descriptions. "
+                      "Struct-mapped objects (model Schema/XOps.v, conservative over "
                       "Ops.v: Proofs/XEmbed.v): the PANIC half is a theorem too - C04_struct_never_panics: for every environment and "
                       "every xschema with xwf (Schema/XWf.v = wf_schema's contracts at every node + every property of a struct-mapped "
                       "object has a struct field, what buildObjectFieldCache guarantees), EVERY Go value and every fuel, none of "
                       "xunser / xvalidate / xserialize / xcompat returns Panic (sub-object default propagation, unserializeToStruct, "
                       "validateStruct / serializeStruct and the one-of lookup by reflected type included; no condition on field TYPES "
                       "is needed: an unconvertible value is the recovered constraint error 'Field cannot be set').",
->>>>>>> a9526746a02acb1ae3f613fc50e17d91c0cb43fa
         "level_note": "Model = Schema/Ops.v (map-based objects); Schema/Wf.v (constructor contracts), Schema/Total.v (bound). Tied to the "
                       "code by outcome-class correspondence on every call. PARTIAL for struct-mapped objects: the TERMINATION half "
                       "(x_struct_total with an explicit fuel bound under the analogues of no_inline_cycle / defaults_total and a third "
